@@ -1316,10 +1316,11 @@ def _solve_balancing_ilp_pulp(A):
     ]
     prob = pulp.LpProblem("chempy_balancing_problem", pulp.LpMinimize)
     prob += reduce(add, x)
-    for expr in [
-        pulp.lpSum([x[i] * e for i, e in enumerate(row)]) for row in A.tolist()
-    ]:
-        prob += expr == 0
+    for row in A.tolist():
+        # integer coefficients (row times its least common denominator), a row
+        # with e.g. 1/3 would otherwise reach the solver as a rounded float:
+        lcd = reduce(lambda a, b: a * b // math.gcd(a, b), [int(e.q) for e in row], 1)
+        prob += pulp.lpSum([x[i] * int(e * lcd) for i, e in enumerate(row)]) == 0
     prob.solve(pulp.PULP_CBC_CMD(msg=False))
     return [pulp.value(_) for _ in x]
 
